@@ -343,6 +343,10 @@ theorem applyFilter_shrinks {v : View} {env : Env} {f : Filter} {cs out : List C
     · split
       · exact ⟨rfl, rfl, rfl, List.Subperm.refl _⟩
       · exact ⟨rfl, rfl, rfl, List.filter_sublist.subperm⟩
+  | mahalanobis =>
+    simp only [applyFilter, Option.some.injEq] at h
+    subst h
+    exact shrinks_map _ _ fun c => ⟨rfl, rfl, rfl, List.filter_sublist.subperm⟩
 
 theorem applyFilters_shrinks {v : View} {env : Env} {fs : List Filter} {cs out : List Cand}
     (h : applyFilters v env fs cs = some out) : Shrinks cs out := by
